@@ -20,8 +20,11 @@ class ModelCache:
 
     @staticmethod
     def _value_identity(value):
-        # 0.0 == -0.0 in Python (and they hash alike), but they are different values of a floating-point variable
-        return (value, math.copysign(1.0, value)) if isinstance(value, float) else value
+        # 0.0 == -0.0 in Python (and they hash alike), but they are different values of a floating-point variable;
+        # and there is one NaN value, although no Python NaN is equal to another
+        if isinstance(value, float):
+            return ("nan",) if value != value else (value, math.copysign(1.0, value))
+        return value
 
     def _identity(self):
         return frozenset((k, self._value_identity(v)) for k, v in self.model.items())
@@ -280,14 +283,21 @@ class ModelCacheMixin:
             if m.eval_constraints(extra_constraints):
                 yield m
 
+    @staticmethod
+    def _solution_identity(r):
+        return tuple(ModelCache._value_identity(v) for v in r)
+
     def _get_batch_solutions(self, asts, n=None, extra_constraints=(), allow_unconstrained=True):
-        results = set()
+        # keyed by the identity of the values: a set of the tuples themselves takes 0.0 and -0.0 for one solution
+        # and two NaNs for two
+        results = {}
 
         for m in self._get_models(extra_constraints):
             try:
-                results.add(m.eval_list(asts, allow_unconstrained=allow_unconstrained))
+                r = m.eval_list(asts, allow_unconstrained=allow_unconstrained)
             except (ZeroDivisionError, KeyError):
                 continue
+            results.setdefault(self._solution_identity(r), r)
             if len(results) == n:
                 break
 
@@ -301,8 +311,20 @@ class ModelCacheMixin:
                 n=n,
                 extra_constraints=extra_constraints,
                 allow_unconstrained=allow_unconstrained,
-            )
+            ).values()
         )
+
+    @staticmethod
+    def _excludes(a, v):
+        """
+        A constraint under which `a` does not have the value `v`. For floating-point values `a != v` will not do: it
+        is IEEE-754's comparison, under which the two zeros are equal and a NaN differs from everything.
+        """
+        if isinstance(v, float) and isinstance(a, claripy.ast.FP):
+            if v != v:
+                return claripy.Not(claripy.fpIsNaN(a))
+            return claripy.Or(claripy.fpIsNaN(a), a.raw_to_bv() != claripy.FPV(v, a.sort).raw_to_bv())
+        return a != v
 
     #
     # Cached functions
@@ -326,21 +348,27 @@ class ModelCacheMixin:
             and len(asts) == 1
             and asts[0].hash() in self._eval_exhausted
         ):
-            return results
+            return list(results.values())
 
         remaining = n - len(results)
 
         # TODO: faster to concat?
         if len(results) != 0:
             constraints = (
-                claripy.And(*[claripy.Or(*[a != v for a, v in zip(asts, r, strict=False)]) for r in results]),
+                claripy.And(
+                    *[
+                        claripy.Or(*[self._excludes(a, v) for a, v in zip(asts, r, strict=False)])
+                        for r in results.values()
+                    ]
+                ),
                 *tuple(extra_constraints),
             )
         else:
             constraints = extra_constraints
 
         try:
-            results.update(super().batch_eval(asts, remaining, extra_constraints=constraints, exact=exact))
+            for r in super().batch_eval(asts, remaining, extra_constraints=constraints, exact=exact):
+                results.setdefault(self._solution_identity(r), r)
         except UnsatError:
             if len(results) == 0:
                 raise
@@ -352,7 +380,7 @@ class ModelCacheMixin:
                 if self.variables.issuperset(e.variables):
                     self._eval_exhausted[e.hash()] = e
 
-        return results
+        return list(results.values())
 
     def eval(self, e, n, extra_constraints=(), exact=None):
         return tuple(
@@ -412,7 +440,7 @@ class ModelCacheMixin:
                 return True
         else:
             cached = self._get_solutions(e, extra_constraints=extra_constraints)
-            if v in cached:
+            if ModelCache._value_identity(v) in [ModelCache._value_identity(c) for c in cached]:
                 return True
 
         return super().solution(e, v, extra_constraints=extra_constraints, exact=exact)
